@@ -30,7 +30,7 @@ CLS_FF = "ff-false-negative-nonmonotone-stamps"
 CLS_LCA = "lca-nonmaximal-nonmonotone-stamps"
 CLS_IND = "independent-keeps-ancestor-nonmonotone-stamps"
 CLS_IND_DUP = "independent-duplicate-ids-all-dropped"
-CLS_OCT = "octopus-nonmaximal-nonmonotone-stamps"
+CLS_OCT = "octopus-fold-nonmaximal"
 
 
 # ------------------------------------------------------------------------------------------------
@@ -316,8 +316,11 @@ def classify_independent(h: Hist, ids, got):
 
 
 def classify_octopus(h: Hist, ids, got):
+    """graph answer = the maximal commits among the common ancestors of ALL ids"""
     if isinstance(got, str):
         return f"raised {got}", None
+    if len(ids) <= 2:   # delegates to find_merge_base
+        return classify_lcas(h, ids[0], ids[1:] or [ids[0]], got)
     truth = h.octopus(ids)
     gs = set(got)
     if gs == truth:
@@ -325,8 +328,9 @@ def classify_octopus(h: Hist, ids, got):
     m = -1
     for c in ids:
         m &= h.A[c]
-    if gs > truth and all(m >> x & 1 for x in gs) and h.nonmono_edge(h.reach(ids)):
-        return f"non-maximal common ancestor(s) {sorted(gs - truth)} besides {sorted(truth)}", CLS_OCT
+    if gs > truth and all(m >> x & 1 for x in gs):
+        return (f"common ancestor(s) {sorted(gs - truth)} reported although ancestors of another common ancestor "
+                f"(graph answer {sorted(truth)})", CLS_OCT)
     return f"got {sorted(gs)}, graph answer {sorted(truth)}", None
 
 
